@@ -6,7 +6,7 @@ CONSTANTS
   Depth = 3
   CacheRule = "none"
   AddSet = {"I1", "I2", "P", "I3", "P2", "Q1", "Q2", "K"}
-  GetSet = {"I1", "I2", "P"}
+  GetSet = {"I1", "I2", "P", "D1", "D0"}
   PatSets = {{1}}
   MaxLines = 0
   CBudSet = {0}
